@@ -324,6 +324,131 @@ func run(t *testing.T, idx int64, r *rand.Rand, kindIdx, cmIdx, amIdx int, exhau
 	}
 }
 
+// afterCancelledWaiter: capacity 1 exhausted and never released.  A first caller blocks and its context is cancelled
+// well before any bound; later a second caller arrives.  What happened to the first caller is no business of the
+// second: it is refused at exactly its own bound (backlog time-out from its arrival, the limiter's deadline) or, for
+// the blocking limiter, stays blocked.
+func afterCancelledWaiter(t *testing.T, idx int64, r *rand.Rand, kindIdx int) {
+	T := time.Duration(20+r.IntN(2000)) * time.Millisecond
+	k := kinds(r, T)[kindIdx]
+	if k.Timeout < 0 {
+		return
+	}
+	var snap blk.Snapshot
+	var second *blk.Waiter
+	var expected time.Duration
+	var trace []string
+	rt.Scenario(fmt.Sprintf("C13/%s/after-a-cancelled-waiter", k), idx, rt.J{"kind": k})
+	defer rt.ScenarioDone()
+	bubble(t, func(t *testing.T) {
+		w := blk.NewWorld(k, 1)
+		held := w.Hold(1)
+		t0 := time.Duration(r.Int64N(int64(T) / 8))
+		tc := t0 + 1 + time.Duration(r.Int64N(int64(T)/8))
+		t1 := tc + 1 + time.Duration(r.Int64N(int64(T)/4))
+		time.Sleep(t0)
+		first := w.Spawn()
+		w.Quiesce()
+		time.Sleep(tc - w.Now())
+		w.CancelWaiter(first)
+		w.Quiesce()
+		time.Sleep(t1 - w.Now())
+		second = w.Spawn()
+		w.Quiesce()
+		switch k.Family {
+		case "queue":
+			expected = second.Arrived + T
+		case "deadline":
+			expected = T
+		default:
+			expected = 0 // blocking: no bound applies
+		}
+		horizon := t1 + 2*T
+		if expected+1 > horizon {
+			horizon = expected + 1
+		}
+		time.Sleep(horizon - w.Now())
+		w.Quiesce()
+		snap = w.Snap("after-the-second-callers-bound")
+		w.Teardown(held)
+		trace = w.Trace()
+	})
+	if second == nil {
+		return
+	}
+	rt.Count("after_cancelled_waiter_scenarios", 1)
+	fail := func(sig string) {
+		rt.Violation(fmt.Sprintf("C13/%s/after-a-cancelled-waiter/%s", k, sig), idx, rt.J{"kind": k, "expected_return_at": expected.String(), "returned_at": second.Returned.String(),
+			"ok": second.OK, "snapshot": snap, "trace": trace})
+	}
+	stillIn := false
+	for _, id := range append(append([]int{}, snap.Blocked...), snap.GivingUp...) {
+		stillIn = stillIn || id == second.ID
+	}
+	switch {
+	case expected == 0:
+		if !stillIn {
+			fail("second-caller-returned-although-no-bound-applies-and-no-capacity-offered")
+		}
+	case stillIn:
+		fail("second-caller-blocked-past-its-bound")
+	case second.OK:
+		fail("second-caller-granted-although-no-capacity-was-offered")
+	case second.Returned < expected:
+		fail("second-caller-returned-before-its-bound")
+	case second.Returned > expected:
+		fail("second-caller-returned-after-its-bound")
+	}
+	rt.Distinct(fmt.Sprintf("acw|%s|%v", k, expected))
+}
+
+// cancelAtHandoff: queue limiter with eviction on.  A holder completes before the caller's bound and, while that
+// release is handing the unit over (verif point before the hand-off), the caller's context is cancelled.  Granted or
+// refused - the call returns at that instant, and nothing is left stuck behind it.
+func cancelAtHandoff(t *testing.T, idx int64, r *rand.Rand) {
+	T := time.Duration(20+r.IntN(2000)) * time.Millisecond
+	k := blk.Kind{Family: "queue", Ordering: []string{"fifo", "lifo"}[r.IntN(2)], Evict: true, Backlog: 5, Timeout: []time.Duration{T, -1}[r.IntN(2)]}
+	var wt *blk.Waiter
+	var rel time.Duration
+	var snap blk.Snapshot
+	var fin blk.Final
+	var trace []string
+	rt.Scenario(fmt.Sprintf("C13/%s/cancel-at-handoff", k), idx, rt.J{"kind": k})
+	defer rt.ScenarioDone()
+	bubble(t, func(t *testing.T) {
+		w := blk.NewWorld(k, 1)
+		held := w.Hold(1)
+		arrive := time.Duration(r.Int64N(int64(T) / 8))
+		rel = arrive + 1 + time.Duration(r.Int64N(int64(T)/2))
+		time.Sleep(arrive)
+		wt = w.Spawn()
+		w.Quiesce()
+		time.Sleep(rel - w.Now())
+		yields := []int{50, 500}[r.IntN(2)]
+		w.OnPoint("queue.before_handoff", func(*blk.Waiter) {
+			w.CancelWaiter(wt)
+			for i := 0; i < yields; i++ {
+				runtime.Gosched()
+			}
+		})
+		w.Release(held[0], []string{"success", "ignore", "dropped"}[r.IntN(3)])
+		w.Quiesce()
+		snap = w.Snap("after-release-with-cancellation-at-the-hand-off")
+		fin = w.Teardown(nil)
+		trace = w.Trace()
+	})
+	rt.Count("cancel_at_handoff_scenarios", 1)
+	if wt == nil {
+		return
+	}
+	if !wt.Done() || wt.Returned != rel || len(fin.Unreturned) > 0 {
+		rt.Violation(fmt.Sprintf("C13/%s/cancel-at-handoff/call-did-not-return-at-the-instant-of-release-and-cancellation", k), idx, rt.J{"kind": k, "release_and_cancel_at": rel.String(),
+			"returned": wt.Done(), "returned_at": wt.Returned.String(), "ok": wt.OK, "snapshot": snap, "final": fin, "trace": trace})
+		return
+	}
+	rt.Distinct(fmt.Sprintf("cah|%s|%v|%v", k, rel, wt.OK))
+}
+
 // twoWaiters: capacity 1 exhausted, two callers blocked, one release strictly before every bound; the winner keeps the
 // token, the loser must still be refused at exactly its own bound (not at a bound re-armed by the wake-up it lost).
 func twoWaiters(t *testing.T, idx int64, r *rand.Rand, kindIdx int) {
@@ -663,6 +788,14 @@ func TestCheck(t *testing.T) {
 		rt.Case()
 		if idx%9 == 8 {
 			twoWaiters(t, idx, r, r.IntN(7))
+			return
+		}
+		if idx%18 == 4 {
+			afterCancelledWaiter(t, idx, r, r.IntN(7))
+			return
+		}
+		if idx%36 == 13 {
+			cancelAtHandoff(t, idx, r)
 			return
 		}
 		if idx%45 == 7 {
